@@ -433,6 +433,9 @@ def decode_p1_readout_content(
     content: bytes,
 ) -> dict[str, str | int | float | datetime]:
     """Decode P1 readout content into dictionary."""
+    if any(char < 0x20 and char not in b"\t\n\r" for char in content):
+        # P1 data is text. This is binary data (all DLMS messages start with a control character).
+        raise ValueError("Content is not P1 readout data.")
     parsed = parse_p1_readout_content(content)
     if not parsed:
         raise ValueError("Content cotains no readout data.")
